@@ -27,6 +27,15 @@ CLAIMED = {
  "C12": ("contracts on IPAllocator.MarshalJSON/UnmarshalJSON (assumed encoding/json and big.Int text round-trip models), SetAllocation, and DistributedAllocator Allocate/Release/handleRemoteChange/loadAllocations with the store as nondeterministic-error interface contracts; VCs discharged by z3/cvc5",
          "Deductive proof (session mode) that UnmarshalJSON establishes the allocator invariant for every input document and reproduces the document's allocation map (serialise->restore round trip), that DistributedAllocator.Allocate/Release leave memory and store in agreement on success and on store failure, and that reload/remote-apply preserve the invariant. Three genuine defects were found by these obligations and repaired. Lease mode (EpochBitmapAllocator) is under trusted frames only: its reload behaviour is undecided.",
          "Trusted: VC generator, solvers, assumed JSON/big.Int models, AllocationStore calls atomic (error => no effect), 'mode seq' for the inner allocator (reachable only under da.mu).", "DESIGN.md §5 C12"),
+ "C13": ("map-view contracts on the standby session store verified against InMemorySessionStore, loop invariants over the received snapshot, per-message-type postconditions on the SSE handler, with the top-level postcondition 'store == snapshot after a completed full sync' taken from the property; VCs discharged by z3/cvc5",
+         "Deductive proof that after performFullSync / a full message the standby store's domain equals the received snapshot and agrees with it on every id, that add/update/delete messages are applied in list order with last-writer-wins, that heartbeats and unknown messages change nothing, and that PushChange assigns strictly increasing sequence numbers. One genuine defect (full sync merged instead of replacing, on both paths) was found by these obligations and repaired. NOT decided: delivery of every pushed change over the per-connection channel (channels are not modelled; a drop on a full channel is recorded as an observation), reconnection schedules.",
+         "Trusted: VC generator, solvers, JSON decoding model, interface contracts of SessionStore mirrored from the verified in-memory store, assumption keyed(store), HTTP transport.", "DESIGN.md §7 C13"),
+ "C14": ("per-critical-section postconditions (lockedN/unlockedN in program order) and a complete transition table on the failover controller, ghost completed-event counter, callbacks through functype contracts; VCs discharged by z3/cvc5",
+         "Deductive proof for FailoverController: health events never change the role and never enter in-progress; executeFailover/executeFailback write the role only in the critical section that follows a successful role-change callback, emit exactly one completed event on that path and none otherwise, leave in-progress on every return path, and failback completes only if the partner was reported healthy during the call; ForceFailover never returns in state in-progress. One genuine defect (ForceFailover left the controller in progress for ever) was found and repaired. NOT decided: 'down continuously for the configured delay' across timer firings (timer semantics; a stale-timer promotion and a double promotion across invocations are recorded as observations).",
+         "Trusted: VC generator, solvers, functype contracts of the handlers/callback (modify nothing), monitor model for c.mu, time.AfterFunc closures verified as separate functions with arbitrary entry state.", "DESIGN.md §7 C14"),
+ "C17": ("set-level characterisation of ownership (top score among members) with loop invariants on rendezvousHash, permutation contract on rendezvousRanked through an assumed sort model, and three machine-checked lemmas (order independence, minimal disruption on removal, join disruption); VCs discharged by z3/cvc5",
+         "Deductive proof that the owner is the member with the maximal score (unique under distinct scores), hence independent of the order and multiplicity in which peers were configured or added; that the ranked list is a permutation of the peer set in non-increasing score order headed by the owner; that removing a peer or marking it unhealthy changes the owner only where that peer was the owner. NOT decided: score ties under FNV-1a collisions (stated precondition; recorded observation), 'nothing else was added' converses for AddPeer/RemovePeer, that the HTTP forwarding serves a request from exactly one pool.",
+         "Trusted: VC generator, solvers, hashString/hashCombine as uninterpreted functions, assumed contract of sort.Slice with an opaque comparator, monitor model for the pool mutex.", "DESIGN.md §7 C17"),
  "C15": ("uninterpreted-hash ghost state (absorb/sum over byte sequences) with the RFC 5176 authenticator formula written independently in the spec; gating preconditions on the handlers at their call sites in receiveLoop; response bytes observed through a ghost snapshot of WriteToUDP; VCs discharged by z3/cvc5",
          "Deductive proof for the CoA/Disconnect listener: verifyRequestAuthenticator returns true iff the Request Authenticator verifies (16-byte comparison loop included); handlers are invoked only for complete, authentic datagrams whose attributes parse, and such a datagram produces exactly one response; the response carries code, identifier, length, attributes and a Response Authenticator that verifies against the request. One defect repaired (Reply-Message length), one recorded as known finding (default ACK without handler, pinned by an existing test).",
          "Trusted: VC generator, solvers, MD5 as an uninterpreted function (no cryptographic claim), assumed models of net.UDPConn Read/Write, callbacks assumed not to touch the socket/buffer.", "DESIGN.md §5 C15"),
